@@ -16,7 +16,7 @@ LEVEL = "exploration"
 RULE = ("random lattice arrays (multiples of 1/8, zeros, negatives) for the ten arithmetic commands, every int64/float64 assignment "
         "for n<=4 inputs (sampled for 5), input orders permuted, weights int/float/mixed; plus single-fault cases (shape, weight count, "
         "empty list); distinct by (command, n, dtype assignment, mask classes, param kinds, fault kind)")
-REQUIRED_COUNTERS = ["rank0_cases", "fields_read_from_a_reused_file", "program_less_fault_checks", "command_object_input_cases", "ref_postconditions", "order_checks", "fault_checks", "zero_divisor_cells", "zero_weight_sum_cases", "repeated_field_cases", "later_command_checks", "fault_reevaluations", "chained_field_cases"]
+REQUIRED_COUNTERS = ["narrow_integer_netcdf_cases", "rank0_cases", "fields_read_from_a_reused_file", "program_less_fault_checks", "command_object_input_cases", "ref_postconditions", "order_checks", "fault_checks", "zero_divisor_cells", "zero_weight_sum_cases", "repeated_field_cases", "later_command_checks", "fault_reevaluations", "chained_field_cases"]
 ASSUMPTIONS = ["reference models in mpv/ref.py", "int64 overflow and NaN/inf inputs are never generated", "result dtype is not judged"]
 
 COMMUTATIVE = ("Sum", "Multiply", "Minimum", "Maximum", "Mean", "WeightedSum", "WeightedMean")
@@ -214,12 +214,28 @@ _shared = {"dir": None}
 
 
 def _via_file(ctx, cmd, inputs, params, fcols, want, scale):
-    """The same fields read from a CSV table - always the same path, rewritten for every case of this process - and combined
-    by the command: the result follows what the file holds now."""
+    """The same fields read from a CSV table - always the same path, rewritten for every case of this process - by a command
+    file (reads with a missing-value marker, the command with an empty Metadata list in half of the cases), one valid decimal
+    cell a hair away from the marker: the result follows what the file holds now."""
     import os
-    cells = [arr.cells(a) for a in inputs]
+    from mpilot.program import Program
+    cells = [list(arr.cells(a)) for a in inputs]
     if any(v == -9999 or (isinstance(v, float) and (v != v or v in (float("inf"), float("-inf")))) for col in cells for v in col if v is not None):
         return None
+    _shared["n"] = _shared.get("n", 0) + 1
+    near = None
+    if _shared["n"] % 2 == 0:
+        for k, a in enumerate(inputs):
+            free = [i for i, v in enumerate(cells[k]) if v is not None]
+            if a.dtype.kind == "f" and free:
+                near = (k, free[_shared["n"] % len(free)], [-9999.05, -9998.95, -9999.000001][_shared["n"] % 3])
+                break
+    if near:
+        cells[near[0]][near[1]] = near[2]
+        try:
+            want, scale = ref.MODELS[cmd]([[None if v is None else Fraction(v) for v in col] for col in cells], params)
+        except ref.Undefined:
+            return None
     if _shared["dir"] is None:
         _shared["dir"] = ctx.scratch()
     d = _shared["dir"]
@@ -227,32 +243,72 @@ def _via_file(ctx, cmd, inputs, params, fcols, want, scale):
         f.write(",".join("c%d" % i for i in range(len(inputs))) + "\n")
         for r in range(len(cells[0])):
             f.write(",".join("-9999" if col[r] is None else repr(col[r]) for col in cells) + "\n")
-    prog = arr.new_program(working_dir=d)
-    names = []
-    for i, a in enumerate(inputs):
-        o = arr.invoke(prog, "EEMSRead", "R%d" % i, {"InFileName": "data.csv", "InFieldName": "c%d" % i, "MissingVal": -9999, "DataType": "Integer" if a.dtype.kind in "iu" else "Float"})
-        if not o.ok:
-            ctx.note_inconclusive("via-file: read raises %s" % o.err)
-            return None
-        names.append("R%d" % i)
+    lines = ['R%d = EEMSRead(InFileName = "data.csv", InFieldName = c%d, MissingVal = -9999, DataType = %s)' % (i, i, "Integer" if a.dtype.kind in "iu" else "Float") for i, a in enumerate(inputs)]
+    names = ["R%d" % i for i in range(len(inputs))]
     style = arr.INPUT_STYLE.get(cmd, "list")
-    args = dict(params)
+    args = []
     if style == "one":
-        args["InFieldName"] = names[0]
+        args.append("InFieldName = %s" % names[0])
     elif style == "ab":
-        args["A"], args["B"] = names[0], names[1]
+        args += ["A = %s" % names[0], "B = %s" % names[1]]
     else:
-        args["InFieldNames"] = names
-    out = arr.invoke(prog, cmd, "Res", args)
+        args.append("InFieldNames = [%s]" % ", ".join(names))
+    for k_, v_ in params.items():
+        if k_ == "Metadata":
+            continue
+        args.append("%s = %s" % (k_, "[%s]" % ", ".join(repr(x) for x in v_) if isinstance(v_, list) else repr(v_)))
+    if _shared["n"] % 4 < 2:
+        args.insert(_shared["n"] % (len(args) + 1), "Metadata = []")        # an empty metadata list
+    lines.append("Res = %s(%s)" % (cmd, ", ".join(args)))
+    text = "\n".join(lines)
     ctx.count("fields_read_from_a_reused_file")
-    if not out.ok:
-        ctx.fail("%s:raises-%s:fields-read-from-a-file" % (cmd, out.inner() or out.err), {"error": repr(out.exc)[:200], "params": params})
+    try:
+        prog = Program.from_source(text, working_dir=d)
+        prog.run()
+        res = prog.commands["Res"].result
+    except Exception as e:
+        inner = type(getattr(e, "exc", None)).__name__ if type(e).__name__ == "UnexpectedError" else None
+        ctx.fail("%s:raises-%s:fields-read-from-a-file%s" % (cmd, inner or type(e).__name__, ":command-with-an-empty-metadata-list" if "Metadata = []" in text else ""), {"error": repr(e)[:200], "text": text[-300:]})
         return False
-    bad = ref.compare(out.value, want, scale=scale, rel=1e-12)
+    bad = ref.compare(res, want, scale=scale, rel=1e-12)
     if bad:
-        ctx.fail("%s:%s:fields-read-from-a-file-that-was-rewritten" % (cmd, bad[0]), {"cell": bad[1], "got": bad[2], "want": bad[3], "params": params})
+        ctx.fail("%s:%s:fields-read-from-a-file-that-was-rewritten%s" % (cmd, bad[0], ":valid-cell-next-to-the-missing-marker" if near and bad[1] == near[1] else ""), {"cell": bad[1], "got": bad[2], "want": bad[3], "params": params, "near_marker_cell": near})
         return False
     return True
+
+
+def _via_netcdf(ctx, cmd, case_rseed):
+    """Whole-number fields stored in a NetCDF file as 16-bit integers, read as Integer and combined: the exact result, also where
+    it does not fit 16 bits."""
+    import os
+    from netCDF4 import Dataset
+    rs = numpy.random.RandomState(case_rseed % (2 ** 31))
+    n = int(rs.randint(3, 9))
+    a = rs.choice([30000, 10000, 200, 300, -32000, 25000, 7], size=n).astype("int64")
+    b = rs.choice([10000, 30000, 300, 200, -20000, 3, 32000], size=n).astype("int64")
+    d = ctx.scratch()
+    with Dataset(os.path.join(d, "in.nc"), "w") as ds:
+        ds.createDimension("x", n)
+        for nm, v_ in (("a", a), ("b", b)):
+            v = ds.createVariable(nm, "i2", ("x",))
+            v[:] = v_
+    prog = arr.new_program(arr.NC_LIBS, working_dir=d)
+    for nm in ("a", "b"):
+        o = arr.invoke(prog, "EEMSRead", nm.upper(), {"InFileName": "in.nc", "InFieldName": nm, "DataType": "Integer"})
+        if not o.ok:
+            ctx.note_inconclusive("narrow NetCDF read raises %s" % o.err)
+            return
+    params = {"Weights": [2, 3]} if cmd in ("WeightedSum",) else {}
+    args = dict(params, **({"A": "A", "B": "B"} if cmd in cmdgen.AB else {"InFieldNames": ["A", "B"]}))
+    out = arr.invoke(prog, cmd, "Res", args)
+    ctx.count("narrow_integer_netcdf_cases")
+    want, scale = ref.MODELS[cmd]([[Fraction(int(x)) for x in a], [Fraction(int(x)) for x in b]], params)
+    if not out.ok:
+        ctx.fail("%s:raises-%s:integer-fields-stored-narrow-in-netcdf" % (cmd, out.inner() or out.err), {"error": repr(out.exc)[:200]})
+        return
+    bad = ref.compare(out.value, want, scale=scale, rel=1e-12)
+    if bad:
+        ctx.fail("%s:%s:integer-fields-stored-narrow-in-netcdf" % (cmd, bad[0]), {"cell": bad[1], "got": bad[2], "want": bad[3], "a": a.tolist(), "b": b.tolist(), "read_dtype": str(prog.commands["A"]._result.dtype)})
 
 
 def run_rank0(ctx, case):
@@ -287,6 +343,8 @@ def run_rank0(ctx, case):
 
 def run_case(ctx, case):
     if case["kind"] == "rank0":
+        if case["cmd"] in ("Sum", "Multiply", "AMinusB", "WeightedSum", "Maximum", "Mean"):
+            _via_netcdf(ctx, case["cmd"], int(sum(abs(v) * 8 for v in case["values"])) + len(case["kinds"]) * 7919)
         return run_rank0(ctx, case)
     if case["kind"] == "chained":
         return run_chained(ctx, case)
